@@ -413,3 +413,49 @@ theorem c01_scenario_with_a_foreign_signature :
   exact okPart_eq_some.mpr Scenario.verifies_id
 
 end InToto.VerifySpec
+
+namespace InToto.VerifySpec
+open InToto InToto.Verify
+
+variable {K : Type}
+
+/-- C15 / C02 (every population of the link directory): a sub-directory whose name is not
+    `<step>.<8 characters>` for a step of the layout - whatever it holds - may be inserted anywhere among the
+    sub-directories: success and summary stay what they were.  Delegated evidence is looked for in the one
+    sub-directory named after its step and key, and nowhere else. -/
+theorem c15_subdirectories_named_like_no_delegation_do_not_matter (env : Env K) (ord ord' : Ord) (hord : ord.Valid)
+    (hord' : ord'.Valid) (fuel : Nat) (path : List Str) (b : Block K) (keys : List K)
+    (files : List (Str × FileC K)) (pre post : List (Str × Dir K)) (d : Str × Dir K) (name : Str)
+    (hd : ∀ L, b.signed = .layout L → ∀ st ∈ L.steps, ∀ kid : Str, d.1 ≠ st.name ++ '.' :: prefix8 kid) :
+    okPart (verify env ord (fuel + 1) path b keys (Dir.mk files (pre ++ d :: post)) name).1 =
+      okPart (verify env ord' (fuel + 1) path b keys (Dir.mk files (pre ++ post)) name).1 := by
+  rw [okPart_verify_eq_accepts env ord hord, okPart_verify_eq_accepts env ord' hord']
+  exact acceptsStep_insert_other_subdir (accepts env fuel) env path b keys files pre post d name hd
+
+/-- non-vacuity: the scenario with a stray sub-directory `cache` (holding a copy of the delegated evidence) in
+    front of the real one verifies as before -/
+theorem c15_scenario_with_a_stray_subdirectory :
+    okPart (verify Scenario.env Scenario.revOrd 2 [] Scenario.block [0]
+      (Dir.mk Scenario.dir.files ([] ++ ("cache".toList, Scenario.subDir) :: Scenario.dir.subs)) "final".toList).1
+      = some Scenario.summaryLink := by
+  rw [c15_subdirectories_named_like_no_delegation_do_not_matter Scenario.env Scenario.revOrd Scenario.idOrd
+    Scenario.revOrd_valid Scenario.idOrd_valid 1 [] Scenario.block [0] Scenario.dir.files [] Scenario.dir.subs
+    ("cache".toList, Scenario.subDir) "final".toList ?hd]
+  case hd =>
+    intro L hL st hst kid h
+    cases hL
+    have h0 := congrArg List.head? h
+    simp only [Scenario.layout, List.mem_cons, List.not_mem_nil, or_false] at hst
+    have hc : List.head? "cache".toList = some 'c' := by rfl
+    rcases hst with rfl | rfl
+    · have h0' : List.head? "cache".toList = List.head? ("build".toList ++ '.' :: prefix8 kid) := h0
+      rw [hc, show List.head? ("build".toList ++ '.' :: prefix8 kid) = some 'b' from rfl] at h0'
+      exact absurd h0' (by decide)
+    · have h0' : List.head? "cache".toList = List.head? ("pkg".toList ++ '.' :: prefix8 kid) := h0
+      rw [hc, show List.head? ("pkg".toList ++ '.' :: prefix8 kid) = some 'p' from rfl] at h0'
+      exact absurd h0' (by decide)
+  have e : Dir.mk Scenario.dir.files ([] ++ Scenario.dir.subs) = Scenario.dir := rfl
+  rw [e]
+  exact okPart_eq_some.mpr Scenario.verifies_id
+
+end InToto.VerifySpec
